@@ -92,8 +92,9 @@ fn draw_integers_contract(n: usize) {
     let mut coin = any_coin();
     let s0 = d8(&coin.seed);
     let dl = vs::any_u32();
-    vs::assume(dl >= 2 && dl <= 63);
+    vs::assume(dl >= 1 && dl <= 63);
     let domain = 1usize << dl;
+    vs::assume(n < domain); // documented precondition
     let nonce = vs::any_u64();
     let r = coin.draw_integers(n, domain, nonce);
     match r {
@@ -117,7 +118,7 @@ fn draw_integers_contract(n: usize) {
     }
 }
 
-//# harness: fn=DefaultRandomCoin::draw_integers; label=bounded(num_values 0..=3; every power-of-two domain 4..2^63, every nonce, every digest); tier=quick; uses=draw_integers_contract; timeout=400
+//# harness: fn=DefaultRandomCoin::draw_integers; label=bounded(num_values 0..=3; every power-of-two domain 2..2^63 larger than num_values, every nonce, every digest); tier=quick; uses=draw_integers_contract; timeout=400
 #[cfg_attr(kani, kani::proof)]
 #[cfg_attr(kani, kani::unwind(10))]
 #[cfg_attr(kani, kani::stub(alloc::fmt::format, vs::fake_format))]
